@@ -2,6 +2,7 @@ package checks
 
 import (
 	"fmt"
+	"reflect"
 	"testing"
 
 	"github.com/go-spatial/geom"
@@ -192,7 +193,7 @@ type HistCase struct {
 }
 
 var specC02Hist = report.Spec{Property: "C02", Check: "C02Hist",
-	Rule: "stateful: ONE PointIndex, 2-5 rounds of (insert 0-4 occupied pixels of a small window, then SnapClosestPoints of a segment of that window, all levels); after every round the result must be the routing reference for ALL pixels inserted so far. Grids as C02Seg. " +
+	Rule: "stateful: ONE PointIndex, 2-5 rounds of (insert 0-4 occupied pixels of a small window, then SnapClosestPoints of a segment of that window, all levels); after every round the result must be the routing reference for ALL pixels inserted so far, and what earlier rounds returned must be unchanged at the end. Grids as C02Seg. " +
 		"Non-trivial: a later round inserts a pixel that the segment of that round meets (a stale view of the index would miss it) or a tie. Distinct by case content.",
 	Assumptions: specC02Seg.Assumptions}
 
@@ -253,6 +254,15 @@ func oracleC02Hist(c HistCase) (o report.Outcome) {
 			panic(err)
 		}
 		var all [][2]int64
+		var kept, keptCopy []map[uint][][2]float64
+		defer func() {
+			// what earlier rounds returned belongs to the caller: later calls on the index must not change it
+			for i := range kept {
+				if o.Fail == "" && !reflect.DeepEqual(kept[i], keptCopy[i]) {
+					o.Failf([]string{"aliasing"}, "the points returned in round %d changed while later segments were snapped on the same index: were %v, are now %v", i+1, keptCopy[i], kept[i])
+				}
+			}
+		}()
 		for ri, r := range c.Rounds {
 			for _, h := range r.Hot {
 				if err := ix.InsertCoord(int(h[0]), int(h[1])); err != nil {
@@ -261,6 +271,11 @@ func oracleC02Hist(c HistCase) (o report.Outcome) {
 			}
 			all = append(all, r.Hot...)
 			got := ix.SnapClosestPoints(geom.Line{r.Seg[0], r.Seg[1]}, allLevels(deepest), 0)
+			cp := make(map[uint][][2]float64, len(got))
+			for l, pts := range got {
+				cp[l] = append([][2]float64{}, pts...)
+			}
+			kept, keptCopy = append(kept, got), append(keptCopy, cp)
 			var sub report.Outcome
 			compareRouting(&sub, g, deepest, all, r.Seg, got, fmt.Sprintf("round %d of %d on one index: ", ri+1, len(c.Rounds)))
 			if sub.Fail != "" {
